@@ -12,6 +12,7 @@ import TypifyModel.Model.Dispatch
       never rejected" — at this dispatch; the conversions themselves are the subject of the other models).
     * `todo_witnesses`: the `todo!()` IS reachable just outside the fragment — kernel-evaluated examples (`{format}` alone,
       `{minimum}` alone, a typed boolean with a `format`, two validation groups without a type). -/
+set_option linter.unusedSimpArgs false
 namespace TypifyModel.Dispatch
 open TypifyModel TypifyModel.Excl
 
@@ -56,20 +57,11 @@ def Fragment (kvs : Kvs) : Prop :=
    -- an enumeration without a type, the empty schema
    (tyOf kvs = .none ∧ g.fmt = false ∧ g.sub = false ∧ g.num = false ∧ g.str = false ∧ g.arr = false ∧ g.obj = false ∧ g.rf = false))
 
-theorem soleSub_cases (kvs : Kvs) :
-    (match soleSub kvs with
-     | some "allOf" => Step.done Arm.allOf
-     | some "anyOf" => Step.done Arm.anyOf
-     | some "oneOf" => Step.done Arm.oneOf
-     | some "not" => Step.done Arm.not
-     | _ => Step.done Arm.subschemasMerged) ≠ Step.done Arm.todo ∧
-    (match soleSub kvs with
-     | some "allOf" => Step.done Arm.allOf
-     | some "anyOf" => Step.done Arm.anyOf
-     | some "oneOf" => Step.done Arm.oneOf
-     | some "not" => Step.done Arm.not
-     | _ => Step.done Arm.subschemasMerged) ≠ Step.done Arm.malformed := by
-  constructor <;> (split <;> simp)
+theorem isSingle_single (a b : JT) : isSingle (.single a) b = decide (a = b) := rfl
+theorem isSingle_none (b : JT) : isSingle .none b = false := rfl
+
+theorem soleArm_ok (kvs : Kvs) : soleArm kvs ≠ .todo ∧ soleArm kvs ≠ .malformed := by
+  unfold soleArm; constructor <;> (split <;> simp)
 
 /-- **the dispatch hands every schema object of the fragment to a conversion** -/
 theorem fragment_never_todo (kvs : Kvs) (h : Fragment kvs) :
@@ -79,36 +71,30 @@ theorem fragment_never_todo (kvs : Kvs) (h : Fragment kvs) :
   obtain ⟨hcn, h⟩ := h
   rcases h with h | h | h | h | h | h | h | h | h
   · obtain ⟨hty, hf, he, _, hs, hn, hst, ha, ho, hr⟩ := h
-    unfold step; simp [hty, hf, he, hcn, hs, hn, hst, ha, ho, hr]
+    simp +decide [step, armsTyped, typedArms, isSingle_single, isSingle_none, isUntyped, isOne, List.find?, hty, hf, he, hcn, hs, hn, hst, ha, ho, hr]
   · obtain ⟨hty, hf, he, _, hs, hn, hst, ha, ho, hr⟩ := h
-    unfold step
-    simp only [hty, hf, he, hcn, hs, hn, hst, ha, ho, hr]
-    have := soleSub_cases kvs
-    simp
-    refine ⟨this.1, this.2, ?_⟩
-    intro k; split <;> simp
+    have := soleArm_ok kvs
+    simp +decide [step, armsTyped, typedArms, isSingle_single, isSingle_none, isUntyped, isOne, List.find?, hty, hf, he, hcn, hs, hn, hst, ha, ho, hr, this.1, this.2]
   · obtain ⟨hty, hs, hr, hn, ha, ho⟩ := h
-    unfold step
-    cases he : has kvs "enum" <;> simp [hty, he, hcn, hs, hr]
+    cases he : has kvs "enum" <;>
+      simp +decide [step, armsTyped, typedArms, isSingle_single, isSingle_none, isUntyped, isOne, List.find?, hty, he, hcn, hs, hr]
   · obtain ⟨hty, he, hs, hr, hst, ha, ho⟩ := h
-    unfold step
-    rcases hty with hty | hty <;> simp [hty, he, hcn, hs, hr]
+    rcases hty with hty | hty <;>
+      simp +decide [step, armsTyped, typedArms, isSingle_single, isSingle_none, isUntyped, isOne, List.find?, hty, he, hcn, hs, hr]
   · obtain ⟨hty, hf, he, _, hs, hn, hst, ha, ho, hr⟩ := h
-    unfold step
-    rcases hty with hty | hty <;> simp [hty, hf, he, hcn, hs, hr]
+    rcases hty with hty | hty <;>
+      simp +decide [step, armsTyped, typedArms, isSingle_single, isSingle_none, isUntyped, isOne, List.find?, hty, hf, he, hcn, hs, hr]
   · obtain ⟨hty, hf, he, hs, hr, hn, hst, ho⟩ := h
-    unfold step
-    cases ha : arrP kvs <;> simp [hty, hf, he, hcn, hs, hr, ha]
+    cases ha : arrP kvs <;>
+      simp +decide [step, armsTyped, typedArms, isSingle_single, isSingle_none, isUntyped, isOne, List.find?, hty, hf, he, hcn, hs, hr, ha]
   · obtain ⟨hty, hf, he, hs, hr, hn, hst, ha⟩ := h
-    unfold step
-    simp [hty, hf, he, hcn, hs, hr]
+    simp +decide [step, armsTyped, typedArms, isSingle_single, isSingle_none, isUntyped, isOne, List.find?, hty, hf, he, hcn, hs, hr]
   · obtain ⟨t, hne, hty⟩ := h
     have hb : (t != JT.null) = true := by simpa using hne
-    unfold step
-    rcases hty with hty | hty <;> simp only [hty] <;> cases onlyNullEnum kvs <;> simp [List.find?, hb]
+    rcases hty with hty | hty <;> simp only [step, hty, armNullable] <;> cases onlyNullEnum kvs <;> simp [List.find?, hb]
   · obtain ⟨hty, hf, hs, hn, hst, ha, ho, hr⟩ := h
-    unfold step
-    cases he : has kvs "enum" <;> simp [hty, hf, he, hcn, hs, hn, hst, ha, ho, hr]
+    cases he : has kvs "enum" <;>
+      simp +decide [step, armsTyped, typedArms, isSingle_single, isSingle_none, isUntyped, isOne, List.find?, hty, hf, he, hcn, hs, hn, hst, ha, ho, hr]
 
 /-- the fragment is inhabited: a string with a format and a length bound, a nullable integer, a lone `oneOf` -/
 example : Fragment [("format", .str "uuid"), ("maxLength", .int 40), ("type", .str "string")] :=
